@@ -131,7 +131,13 @@ pub fn do_fmt(c: &Value, w: &mut Out) {
                     Ok(None) => "NOKEY".to_string(),
                     Err(msg) => format!("PANIC {}", msg),
                 };
-                results.lock().unwrap().push(json!({"ev": "Fmt", "case": id, "thread": t, "key": key, "locale": l.as_str(), "out": out}));
+                results.lock().unwrap().push(json!({"ev": "Fmt", "case": id, "thread": t, "key": key, "locale": l.as_str(), "via": "key", "out": out}));
+                let out2 = match crate::run_caught(|| render_tformat(l, key)) {
+                    Ok(Some(s)) => s,
+                    Ok(None) => "NOKEY".to_string(),
+                    Err(msg) => format!("PANIC {}", msg),
+                };
+                results.lock().unwrap().push(json!({"ev": "Fmt", "case": id, "thread": t, "key": key, "locale": l.as_str(), "via": "td_format_string", "out": out2}));
             }
         }));
     }
